@@ -108,7 +108,7 @@ PROPERTIES = {
                                              "NonAsyncContext.resume"]] + [S + "_handle_async_task", S + "_continue_with_task"],
         "assumptions": [A_ENV_GEN, "user pause()/resume() hooks obey env.ctx.pause/resume (ghost counters and timestamps; E4'': do not advance pre-existing tasks)",
                         "a context object is entered at most once at a time in a task"],
-        "not_proved": ["global alternation across tasks (needs the Settled/J4 invariant of _execute); the close()-while-paused double pause is a recorded finding"],
+        "not_proved": ["global alternation across tasks (needs the Settled/J4 invariant of _execute)"],
     },
     "C07": {
         "functions": [T + "_pause_contexts", T + "_resume_contexts"] + [SV + n for n in [
